@@ -35,7 +35,12 @@ RULES["C07"] = (
     "remove_infinite_values, update_faces(unique_faces()), update_faces(nondegenerate_faces(height)), process(validate, "
     "merge_tex, merge_norm), Trimesh(..., process=True) constructor, submesh(sequence of int/bool/tuple items, append, "
     "only_watertight, repair=False), split(only_watertight, repair=False) + concatenate, util.concatenate / + / sum() of "
-    "2-3 tagged meshes. Non-trivial: the operation changed the indexing (a face or vertex was removed, merged, "
+    "2-4 tagged meshes among which single-face, face-less (built so, or left by an all-False update_faces) and empty "
+    "meshes at any position. Sub-domain 'nonfinite': 4-9 distinct points of the integer lattice {-1..2}^3 (x 1, 0.5 or "
+    "0.01) with 2-10 faces, plus 1-3 referenced vertices that copy another referenced vertex except for one slot set to "
+    "NaN / +inf / -inf (preferably a slot where the other holds 0), exact copies of such a vertex and copies with another "
+    "non-finite value, under merge_vertices (all options), process, constructor, remove_*, update_faces, "
+    "unmerge_vertices; corners are compared NaN-aware (same non-finite value in the same slot). Non-trivial: the operation changed the indexing (a face or vertex was removed, merged, "
     "duplicated or moved to another index) of a mesh carrying at least one kind of tag."
 )
 ASSUMPTIONS["C07"] = [
@@ -888,7 +893,8 @@ def _merge_params(op):
 
 def op_merge_vertices(S, mesh, op, rs, labels, sigp):
     kw = {k: op[k] for k in ("merge_tex", "merge_norm", "digits_vertex", "digits_norm", "digits_uv") if op.get(k) is not None}
-    mesh.merge_vertices(**kw)
+    with np.errstate(invalid="ignore"):  # the NaN -> int64 cast inside warns; the outcome is what is judged
+        mesh.merge_vertices(**kw)
     mp = _merge_params(op)
     labels.append("merge:digits_vertex=%s" % ("default" if op.get("digits_vertex") is None else "set"))
     nonfin = not bool(np.isfinite(S.V).all())
